@@ -144,7 +144,7 @@ func genPQCase(r *rand.Rand, gi int) pqCase {
 	lo, hi := (pc.Start-340)*1000, (pc.End+20)*1000
 	for _, s := range pc.Series {
 		interval := pick(r, []int64{3000, 5000, 10000, 15000})
-		onSeconds := r.Intn(3) == 0
+		onSeconds := r.Intn(5) == 0
 		counter := r.Intn(2) == 0
 		t := lo + r.Int63n(interval)
 		if onSeconds {
@@ -189,8 +189,13 @@ func genPQCase(r *rand.Rand, gi int) pqCase {
 		}
 	}
 	// expression
+	multi := false // {__name__=~"m|n"} only where the metric name survives (else equal label sets collide)
 	sel := func() string {
-		switch r.Intn(6) {
+		k := r.Intn(6)
+		if k == 2 && !multi {
+			k = 5
+		}
+		switch k {
 		case 0:
 			return `m{job="a"}`
 		case 1:
@@ -213,6 +218,7 @@ func genPQCase(r *rand.Rand, gi int) pqCase {
 	case k == 0:
 		pc.Expr, pc.Shape, pc.Sels = "m", "selector", []selInfo{{}}
 	case k == 1:
+		multi = true
 		pc.Expr, pc.Shape, pc.Sels = sel(), "selector-with-matchers", []selInfo{{}}
 	case k == 2:
 		rs, R := rng()
@@ -571,7 +577,24 @@ func pqJudge(rig *pqRig, pc *pqCase) (sig, desc string, undecided string, nonEmp
 	if kind == "" {
 		return "", "", "", nonEmpty, sqls
 	}
-	return prefix + "/" + kind, fmt.Sprintf("%s: %s", pc.reqString(), d), "", nonEmpty, sqls
+	return pqSignature(ep, pc.stepClass(), kind), fmt.Sprintf("[%s] %s: %s", kind, pc.reqString(), d), "", nonEmpty, sqls
+}
+
+// pqSignature: hint class x mismatch kind. Within the classes whose treatment by processHints
+// cannot agree with Prometheus on any kind of point (misaligned bucket grid, timestamp() over
+// buckets, the modulo-step filter) the kinds are one signature; where the bucket grid coincides with
+// the evaluation timestamps only "a sample Prometheus already considers stale is still returned"
+// (extra point / extra series) is one signature and every other kind keeps its own.
+func pqSignature(ep, class, kind string) string {
+	switch {
+	case strings.HasSuffix(class, "/timestamp()"):
+		return "promql/" + ep + "/step-buckets/timestamp()"
+	case class == "step-buckets/grid-misaligned", class == "step>range":
+		return "promql/" + ep + "/" + class
+	case class == "step-buckets/grid-aligned" && (kind == "point-extra" || kind == "series-extra"):
+		return "promql/" + ep + "/" + class + "/extra"
+	}
+	return "promql/" + ep + "/" + class + "/" + kind
 }
 
 func (pc *pqCase) reqString() string {
@@ -656,7 +679,7 @@ func childPromQL(c *run.Ctx, cfg childCfg) {
 		}
 		c.BeginCase(gi, map[string]any{"monitor": "promql", "case": pc})
 		c.Case(key)
-		if gi < 3 {
+		if gi < 1 {
 			c.Sample(map[string]any{"monitor": "promql", "request": pc.reqString(), "series": len(pc.Series)})
 		}
 		sig, desc, undecided, nonEmpty, sqls := pqJudge(rig, &pc)
@@ -684,7 +707,7 @@ func childPromQL(c *run.Ctx, cfg childCfg) {
 			continue
 		}
 		c.Event("promql: disagreements", 1)
-		c.Cover("promql mismatch kinds", sig, 1)
+		c.Cover("promql mismatch kinds", pc.stepClass()+" "+strings.SplitN(strings.TrimPrefix(desc, "["), "]", 2)[0], 1)
 		w := pc
 		if !shrunk[sig] {
 			shrunk[sig] = true
